@@ -99,7 +99,7 @@ def r20a(ctx, rep, cr):
                 rep.violation('R20a', f, 'unbounded-' + c.resolved.split('::')[-1], f.loc(c.line),
                               'an allocation / decompression sized by a length decoded from the wire is reachable without a must-pass '
                               'comparison of that length with the declared limit: a 4-byte prefix makes the peer allocate up to 4 GiB')
-    rep.floor('R20a', 'wire-sized allocations in frame readers / decompress', n_alloc, 5)
+    rep.floor('R20a', 'wire-sized allocations in frame readers / decompress', n_alloc, 3)
 
 
 def r20b(ctx, rep, cr):
@@ -140,7 +140,7 @@ def r20b(ctx, rep, cr):
                 rep.holds('R20b', f, 'limit compared', 'through a checked sibling')
             else:
                 rep.violation('R20b', f, 'no-limit', f.loc(), '%s never compares a length with max_frame_length: encoder and decoder disagree on what is acceptable' % lib.short(p))
-    rep.floor('R20b', 'LengthDelimitedCodec encode/decode/read bodies', n, 8)
+    rep.floor('R20b', 'LengthDelimitedCodec encode/decode/read bodies', n, 4)
     ff = rep.require_fn('R20b', cr, CP + 'frame_flags')
     mf = rep.require_fn('R20b', cr, CP + 'method_from_flags')
     enum = cr.adts.get(CP + 'CompressionMethod')
